@@ -9,13 +9,21 @@ import collections
 
 EV_DELETED, EV_REPLACED, EV_INSERTED, EV_RECURSIVE, EV_FREE = 1, 2, 4, 8, 16
 
-# ordered: iteration in ascending strcmp order is promised; prefix_iter: prefix iterators restrict;
+# ordered: iteration in ascending key order is promised -- "unsigned": strcmp order (bytes compared as
+# unsigned char, the skiplist), "signed": byte-wise comparison of the keys as SIGNED chars (the trie:
+# bytes 0x80..0xff sort before 0x01..0x7f; integrator decision: this is the trie's "ascending key
+# order"), None: no order (hashtable); prefix_iter: prefix iterators restrict;
 # prefix_notify: per-key notifiers are attached to key strings (trie), otherwise to present entries
 FLAVOUR = {
-    "ht": dict(ordered=False, prefix_iter=False, prefix_notify=False),
-    "sl": dict(ordered=True, prefix_iter=False, prefix_notify=False),
-    "trie": dict(ordered=True, prefix_iter=True, prefix_notify=True),
+    "ht": dict(ordered=None, prefix_iter=False, prefix_notify=False),
+    "sl": dict(ordered="unsigned", prefix_iter=False, prefix_notify=False),
+    "trie": dict(ordered="signed", prefix_iter=True, prefix_notify=True),
 }
+
+
+def signed_key(k):
+    """sort key of the trie's order: the bytes of the key as signed chars"""
+    return [c if c < 128 else c - 256 for c in k]
 for _k in list(FLAVOUR):
     FLAVOUR["spec-" + _k] = FLAVOUR[_k]
 
@@ -371,11 +379,8 @@ class Spec:
     """Dictionary + notifier registry as documented in qbmap.h (see the header of
     lean/QbVerif/Model/MapSpec.lean for the reading of the documentation)."""
 
-    def __init__(self, fl, dev=()):
+    def __init__(self, fl):
         self.fl = fl
-        # documented deviations of an implementation (recorded findings, see DEVIATIONS below);
-        # empty = the dictionary as documented
-        self.dev = frozenset(dev)
         self.d = {}            # key -> value
         self.entry_ns = {}     # key -> [(ev, id)] newest first        (entry-attached flavours)
         self.pfx_ns = {}       # key string -> [(ev, id)]              (prefix flavour)
@@ -388,7 +393,7 @@ class Spec:
     def _global_calls(self, ev, k, old, new):
         out = []
         for fev, fid in self.globals:
-            if (fev & ev) and ("global-needs-recursive" not in self.dev or (fev & EV_RECURSIVE)):
+            if fev & ev:
                 out.append((fid, ev, k, old, new))
             if (ev & (EV_DELETED | EV_REPLACED)) and (fev & EV_FREE):
                 out.append((fid, EV_FREE, k, old, new))
@@ -485,9 +490,7 @@ class Spec:
         return evs, ["ok"]
 
     def range(self, pfx):
-        ks = sorted(self.d)
-        if "signed-order" in self.dev:
-            ks = sorted(self.d, key=lambda k: [c if c < 128 else c - 256 for c in k])
+        ks = sorted(self.d, key=signed_key) if self.fl["ordered"] == "signed" else sorted(self.d)
         if self.fl["prefix_iter"] and pfx is not None:
             ks = [k for k in ks if k.startswith(pfx)]
         return ks
@@ -568,7 +571,7 @@ def apply_op(spec, t):
 
 
 # ------------------------------------------------------------------------------ C17 oracle
-def oracle_c17(ops, lines, dev=()):
+def oracle_c17(ops, lines):
     """C17 on the implementation's own output: results are those of a dictionary; per operation the
     notifier calls are exactly (as a multiset) those the registered notifiers subscribed to, with
     the right key / old / new, per-key notifiers before global ones, FREE once per value leaving."""
@@ -577,7 +580,7 @@ def oracle_c17(ops, lines, dev=()):
     if fl is None:
         return None
     tr, outcome = parse_transcript(ops, lines)
-    spec = Spec(fl, dev)
+    spec = Spec(fl)
     for idx, (t, evs, res) in enumerate(tr):
         where = "op %d `%s`: " % (idx + 1, " ".join(t))
         if res is None:
@@ -609,7 +612,7 @@ def oracle_c17(ops, lines, dev=()):
 
 
 # ------------------------------------------------------------------------------ C18 oracle
-def oracle_c18(ops, lines, dev=()):
+def oracle_c18(ops, lines):
     """C18 on the implementation's own output:
        * no memory error (no SAN:/CRASH outcome; LeakSanitizer at exit included),
        * every key present from iter_new until the iterator reports the end is returned by it;
@@ -626,7 +629,7 @@ def oracle_c18(ops, lines, dev=()):
     if fl is None:
         return None
     tr, outcome = parse_transcript(ops, lines)
-    spec = Spec(fl, dev)
+    spec = Spec(fl)
     ever = set()
     watches = {}      # id -> dict(stable, returned(list), inserted, ended, pfx)
     all_evs = collections.Counter()
@@ -850,155 +853,124 @@ def k_c18_ht(ops, lines):
     return False
 
 
-def _zombie_scan(ops, lines, on_event):
-    """walks a transcript keeping track of where the iterators are parked and which keys are
-    removed-but-referenced (`zombies`: removed by a successful rm while some iterator's last returned
-    key, until every such iterator has moved on or been freed).  on_event(kind, key, state) -> True
-    stops the scan with result True.  kinds: 'rm1' (successful rm, called BEFORE the bookkeeping),
-    'free' (iterator freed / traversal abandoned while parked on key), 'end' (case over; key=None)."""
-    tr, _ = parse_transcript(ops, lines)
-    st = dict(parked={}, zombies=set(), present=set())
-    parked, zombies, present = st["parked"], st["zombies"], st["present"]
-
-    def left(old):
-        if old is not None and old not in parked.values():
-            zombies.discard(old)
-    for t, evs, res in tr:
-        if res is None:
-            break
-        if t[0] == "rm" and res == ["1"]:
-            k = unhex(t[1])
-            if on_event("rm1", k, st):
-                return True
-            if k in parked.values():
-                zombies.add(k)
-            present.discard(k)
-        elif t[0] == "put":
-            present.add(unhex(t[1]))
-        elif t[0] == "iter_next" and res and res != ["bad-iter"]:
-            old = parked.get(t[1])
-            parked[t[1]] = unhex(res[0]) if len(res) == 2 and res[0] != "null" else None
-            left(old)
-        elif t[0] == "iter_free" and res == ["ok"]:
-            old = parked.pop(t[1], None)
-            if old is not None and on_event("free", old, st):
-                return True
-            left(old)
-        elif t[0] == "foreach" and res and res[0] == "visit" and res[-1] == "stop" and len(res) >= 5:
-            if on_event("free", unhex(res[-3]), st):
-                return True
-        elif t[0] == "destroy" and res == ["ok"]:
-            if on_event("destroy", None, st):
-                return True
-            present.clear()
-    return bool(on_event("end", None, st))
-
-
 def k_c18_sl(ops, lines):
-    """K_C18_sl (D16): skiplist; a successful rm
-    (a) while ANOTHER key is removed-but-referenced (it was removed by a successful rm while it was the
-        last key returned by an open iterator, and not every such iterator has moved on or been freed
-        yet): the forward array the removed node shares with its predecessor may be freed by the
-        takeover in skiplist_rm / by skiplist_node_destroy; or
-    (b) of the only entry of the map while an iterator is parked on it: the list level drops to -1,
-        the value that marks teardown, and the node's destruction frees the array the header took over."""
+    """K_C18_sl (D16, takeover-and-repoint in skiplist_rm), decided by replaying the history on the
+    ownership of the forward arrays as lib/skiplist.c handles it (list order = strcmp order of the
+    keys the dictionary holds; `rm`/`iter_next` results taken from the transcript):
+
+    * skiplist_rm(F) with level-0 predecessor P (a node or the header) "takes over" when an iterator
+      is parked on F or P is the header: P's array is FREED, P continues with F's array, F (if
+      referenced: removed-but-referenced, "zombie") keeps reading that same array.  Otherwise F is
+      destroyed together with its array.  So the array a zombie Z reads is owned by Z's predecessor
+      at removal time, and passes on to the owner's predecessor whenever the owner is itself removed
+      with takeover.
+    * the array of a zombie Z is therefore freed under it by a further successful rm
+        (i)  of the list successor of the array's current owner O, when an iterator is parked on that
+             successor or O is the header (takeover frees O's array), or
+        (ii) of O itself, when no iterator is parked on O and O's predecessor is not the header
+             (O is destroyed with the array);
+      class (A): after that, an iterator still parked on Z calls iter_next (reads the freed array).
+    * an rm that empties the list lowers list->level to -1, the value skiplist_node_destroy takes
+      for "teardown": a zombie destroyed then frees the array it reads, which the header owns;
+      class (B): the last iterator leaves a zombie (iter_next, iter_free, or the harness's clean-up
+      at the end of the case) while the map is empty.
+
+    Everything else (rm of a parked entry followed by put/get/next, rm of entries that are neither
+    the owner nor its successor, several iterators, zombies that are left by iter_free before the
+    array is read, ...) is outside the class."""
     if impl_of(ops) != "sl":
         return False
+    tr, outcome = parse_transcript(ops, lines)
+    HDR = ("hdr", 0)
+    lst = []              # keys in the list, ascending
+    node = {}             # key -> node id (key, incarnation)
+    inc = {}
+    arr = {HDR: 0}        # in-list node id (or HDR) -> array id
+    nxt = [1]
+    zarr = {}             # zombie node id -> array id it reads
+    freed = set()
+    parked = {}           # iterator -> node id | HDR | None (ended)
+    level_neg = False
 
-    def ev(kind, k, st):
-        if kind != "rm1":
-            return False
-        if st["zombies"] - {k}:
-            return True
-        return k in st["parked"].values() and st["present"] <= {k}
-    return _zombie_scan(ops, lines, ev)
+    def refs(n):
+        return sum(1 for q in parked.values() if q == n)
 
-
-def k_sl_iterfree(ops, lines):
-    """K_C17_sl_iterfree / K_C18_sl_iterfree (D19): skiplist; an iterator is given up (iter_free, a
-    qb_map_foreach abandoned by its callback, or the harness's clean-up of iterators still open at the
-    end of the case) while the last key it returned is K, and K's entry is removed by a successful rm
-    either before that (while the iterator was parked on it) or afterwards, before the next destroy."""
-    if impl_of(ops) != "sl":
-        return False
-    held = set()
-
-    def ev(kind, k, st):
-        if kind == "free":
-            if k in st["zombies"]:
+    def leave(n):
+        """an iterator leaves node n (already taken out of `parked`); True = class (B)"""
+        if n in zarr and refs(n) == 0:
+            a = zarr.pop(n)
+            if level_neg:
+                freed.add(a)
                 return True
-            held.add(k)
-        elif kind == "rm1":
-            return k in held
-        elif kind == "destroy":
-            held.clear()
-        elif kind == "end":
-            return any(q in st["zombies"] for q in st["parked"].values() if q is not None)
         return False
-    return _zombie_scan(ops, lines, ev)
-
-
-def k_c17_sl_destroy(ops, lines):
-    """K_C17_sl_destroy (D23): skiplist; qb_map_destroy (the `destroy` op) while a global notifier
-    subscribed to DELETED or FREE is registered."""
-    if impl_of(ops) != "sl":
-        return False
-    tr, _ = parse_transcript(ops, lines)
-    g = []
     for t, evs, res in tr:
-        if res is None:
-            break
-        if t[0] == "nadd" and t[1] == "*" and res == ["0"]:
-            g.append((int(t[2]), int(t[3])))
-        elif t[0] == "ndel" and t[1] == "*" and res == ["0"]:
-            g = [x for x in g if x[0] != int(t[2])]
-        elif t[0] == "ndel2" and t[1] == "*" and res == ["0"]:
-            g = [x for x in g if x != (int(t[2]), int(t[3]))]
-        elif t[0] == "destroy" and res == ["ok"]:
-            if any(e & (EV_DELETED | EV_FREE) for e, _ in g):
+        if t[0] == "iter_next" and t[1] in parked:
+            n = parked[t[1]]
+            if n in zarr and zarr[n] in freed:
+                return True                      # class (A): reads the freed array (ASan stops here)
+            if res is None or res == ["bad-iter"]:
+                break
+            k = unhex(res[0]) if len(res) == 2 and res[0] != "null" else None
+            parked[t[1]] = node.get(k) if k is not None else None
+            if n is not None and leave(n):
                 return True
-            g = []
-    return False
-
-
-def k_trie_rm_absent(ops, lines):
-    """K_C17_trie_rm / K_C18_trie_rm (D17): trie; qb_map_rm returned 1 for a key that is not in the
-    dictionary at that point (never put, or removed since its last put)."""
-    if impl_of(ops) != "trie":
-        return False
-    tr, _ = parse_transcript(ops, lines)
-    d = set()
-    for t, evs, res in tr:
+            continue
         if res is None:
             break
         if t[0] == "put":
-            d.add(unhex(t[1]))
-        elif t[0] == "rm":
             k = unhex(t[1])
-            if k not in d and res == ["1"]:
+            if k not in node:
+                inc[k] = inc.get(k, 0) + 1
+                node[k] = (k, inc[k])
+                arr[node[k]] = nxt[0]
+                nxt[0] += 1
+                lst.append(k)
+                lst.sort()
+                level_neg = False
+        elif t[0] == "rm" and res == ["1"]:
+            k = unhex(t[1])
+            if k not in node:
+                continue                         # not a dictionary history any more; not this class's business
+            f = node.pop(k)
+            idx = lst.index(k)
+            pred = node[lst[idx - 1]] if idx > 0 else HDR
+            lst.pop(idx)
+            if refs(f) > 0 or pred == HDR:
+                freed.add(arr[pred])
+                arr[pred] = arr.pop(f)
+                if refs(f) > 0:
+                    zarr[f] = arr[pred]
+            else:
+                freed.add(arr.pop(f))
+            if not lst:
+                level_neg = True
+        elif t[0] == "iter_new" and res == ["ok"]:
+            parked[t[1]] = HDR
+        elif t[0] == "iter_free" and res == ["ok"] and t[1] in parked:
+            n = parked.pop(t[1])
+            if n is not None and leave(n):
                 return True
-            d.discard(k)
         elif t[0] == "destroy" and res == ["ok"]:
-            d.clear()
+            lst, node, zarr, freed, level_neg = [], {}, {}, set(), False
+            arr = {HDR: nxt[0]}
+            nxt[0] += 1
+    else:
+        # the whole case ran: the harness frees the iterators still open, then destroys the map
+        for i in list(parked):
+            n = parked.pop(i)
+            if n is not None and leave(n):
+                return True
     return False
 
 
-def k_c18_trie(ops, lines):
-    """K_C18_trie (D18): trie; as K_C18_ht: some rm/put/get/nadd/ndel names a key while it is
-    removed-but-referenced."""
-    return impl_of(ops) == "trie" and k_c18_ht(ops, lines)
-
-
 def k_c18_trie_split(ops, lines):
-    """K_C18_trie_split (D83): trie; a key K without an entry is inserted (put of an absent key, or
-    nadd with K) while an open iterator is parked on a key P (the last key it returned) such that
-    K != P, K and P have a non-empty common prefix and P is not a prefix of K -- the situations in
-    which trie_insert may split the node holding P."""
+    """K_C18_trie_split (D83): trie; a key K that has no entry is inserted (put of an absent key, or
+    nadd with key K, which creates K's node) while an open iterator is parked on a key P (the last key
+    it returned) whose node the insertion may split: K != P, K and P share a non-empty prefix of
+    length L, P is not a prefix of K, and no key present in the map is a proper prefix of P of
+    length >= L (such an entry ends a node at or below the point where K leaves P's path, so the node
+    holding P is not the one that is split)."""
     if impl_of(ops) != "trie":
-        return False
-    hit = []
-
-    def ev(kind, k, st):
         return False
     tr, _ = parse_transcript(ops, lines)
     parked = {}
@@ -1010,12 +982,22 @@ def k_c18_trie_split(ops, lines):
             k = unhex(t[1])
             if k not in present:
                 for q in parked.values():
-                    if q is not None and q != k and q[:1] == k[:1] and not k.startswith(q):
-                        return True
+                    if q is None or q == k or k.startswith(q):
+                        continue
+                    n = 0
+                    while n < min(len(q), len(k)) and q[n] == k[n]:
+                        n += 1
+                    if n == 0:
+                        continue
+                    if any(len(x) >= n and len(x) < len(q) and q.startswith(x) for x in present):
+                        continue
+                    return True
             if t[0] == "put":
                 present.add(k)
         elif t[0] == "rm" and res == ["1"]:
             present.discard(unhex(t[1]))
+        elif t[0] == "destroy" and res == ["ok"]:
+            present.clear()
         elif t[0] == "iter_next" and res and res != ["bad-iter"]:
             parked[t[1]] = unhex(res[0]) if len(res) == 2 and res[0] != "null" else None
         elif t[0] == "iter_free" and res == ["ok"]:
@@ -1023,145 +1005,26 @@ def k_c18_trie_split(ops, lines):
     return False
 
 
-# ---- findings that are a precise, harmless-to-describe deviation from the documented dictionary:
-# the class is "the transcript is exactly what the dictionary WITH the deviation produces", so a case
-# inside the class is still checked completely (against the deviating dictionary).
-# deviation -> (implementation, trigger(ops, lines))
-def _puts_high_byte(ops, lines):
-    return any(o.startswith("put ") and any(c >= 0x80 for c in unhex(o.split()[1])) for o in ops)
-
-
-def _global_without_recursive(ops, lines):
-    for o in ops:
-        t = o.split()
-        if t[0] == "nadd" and t[1] == "*" and (int(t[2]) & 7) and not (int(t[2]) & EV_RECURSIVE):
-            return True
-    return False
-
-
-def _leak_at_exit(ops, lines):
-    return bool(lines) and lines[-1] == "SAN:leak"
-
-
-DEVIATIONS = {
-    "signed-order": ("trie", _puts_high_byte),
-    "global-needs-recursive": ("trie", _global_without_recursive),
-    "leak-at-exit": ("trie", _leak_at_exit),
-}
-# deviations of the findings that still reproduce in the tree under test (set by mapcheck.run)
-ACTIVE_DEVS = set()
-
-
-def _dev_class(oracle_name, dev):
-    impl, trigger = DEVIATIONS[dev]
-
-    def pred(ops, lines):
-        if impl_of(ops) != impl or not trigger(ops, lines):
-            return False
-        devs = set(ACTIVE_DEVS) | {dev}
-        ll = lines[:-1] if ("leak-at-exit" in devs and _leak_at_exit(ops, lines)) else lines
-        return globals()[oracle_name](ops, ll, devs) is None
-    pred.__doc__ = ("%s: the case shows the deviation (%s) and its transcript is exactly what the dictionary "
-                    "with the active recorded deviations produces" % (impl, dev))
-    pred.deviation = dev
-    return pred
-
-
 # class name (as in KNOWN_FINDINGS.txt `class=`) -> predicate(ops, transcript lines)
-CLASSES = {"K_C18_ht": k_c18_ht, "K_C18_trie": k_c18_trie, "K_C18_sl": k_c18_sl,
-           "K_C17_sl_iterfree": k_sl_iterfree, "K_C18_sl_iterfree": k_sl_iterfree,
-           "K_C17_sl_destroy": k_c17_sl_destroy, "K_C18_sl_destroy": k_c17_sl_destroy,
-           "K_C17_trie_rm": k_trie_rm_absent, "K_C18_trie_rm": k_trie_rm_absent,
-           "K_C18_trie_split": k_c18_trie_split}
-for _p, _o in (("C17", "oracle_c17"), ("C18", "oracle_c18")):
-    CLASSES["K_%s_trie_order" % _p] = _dev_class(_o, "signed-order")
-    CLASSES["K_%s_trie_global" % _p] = _dev_class(_o, "global-needs-recursive")
-    CLASSES["K_%s_trie_leak" % _p] = _dev_class(_o, "leak-at-exit")
+CLASSES = {"K_C18_ht": k_c18_ht, "K_C18_sl": k_c18_sl, "K_C18_trie_split": k_c18_trie_split}
 
 
-def steer(ops, classes):
-    """cheap syntactic steering of a generated case away from the classes of findings that still
-    reproduce (only where that does not need a model of the implementation):
-    K_*_sl_destroy: no explicit `destroy` of a skiplist after a global notifier wanting DELETED/FREE
-    was added; K_C17_sl_iterfree: skiplist traversals are not abandoned.  Everything else is left to
-    the known-class filter."""
-    if impl_of(ops) != "sl" or not classes:
-        return ops
-    out = []
-    glob = False
-    for o in ops:
-        t = o.split()
-        if t[0] == "nadd" and t[1] == "*" and (int(t[2]) & (EV_DELETED | EV_FREE)):
-            glob = True
-        if t[0] == "destroy" and glob and any(c.endswith("_sl_destroy") for c in classes):
-            continue
-        if t[0] == "foreach" and t[1] != "0" and "K_C17_sl_iterfree" in classes:
-            o = "foreach 0"
-        out.append(o)
-    return out
-
-
-# Findings proposed for KNOWN_FINDINGS.txt (that file is maintained by the integrator).  Same shape as
-# vlib.load_known_findings() entries; mapcheck.findings_for() uses an entry as long as no line with
-# its id is in KNOWN_FINDINGS.txt.  `repair` names the patch under fixes/ that removes the defect:
-# once it is committed in /repo the witness passes, the check says "no longer reproduces", the class
-# is no longer excluded, and the entry can be dropped.
-def _pf(prop, ident, cls, witness, text, repair=None):
-    return dict(kind="finding", property=prop, id=ident, witness=witness, text=text, repair=repair, **{"class": cls})
+# Fallback for findings whose line is not (yet) in KNOWN_FINDINGS.txt (that file is maintained by the
+# integrator).  Same shape as vlib.load_known_findings() entries; mapcheck.findings_for() uses an
+# entry only as long as no line with its id is in KNOWN_FINDINGS.txt.
+def _pf(prop, ident, cls, witness, text):
+    return dict(kind="finding", property=prop, id=ident, witness=witness, text=text, **{"class": cls})
 
 
 PROPOSED_FINDINGS = [
-    _pf("C17", "KF-C17-sl-iterfree", "K_C17_sl_iterfree", "corpus/C17/sl-d19-abandoned-foreach.ops",
-        "D19: skiplist_iter_free does not release the node the iterator is parked on: after an abandoned qb_map_foreach "
-        "a removed entry never gets its DELETED/FREE notification and is leaked", "fixes/D19-skiplist-iter-free-deref.patch"),
-    _pf("C17", "KF-C17-sl-destroy", "K_C17_sl_destroy", "corpus/C17/sl-d23-destroy-spurious-deleted.ops",
-        "D23: skiplist_destroy releases the header node through the notifying path: every global notifier gets "
-        "DELETED(NULL key, NULL value) twice (the header's list is both its per-node and the global list) and FREE(NULL) once",
-        "fixes/D23-skiplist-destroy-header-no-notify.patch"),
-    _pf("C17", "KF-C17-trie-rm", "K_C17_trie_rm", "corpus/C17/trie-d17-rm-absent-key.ops",
-        "D17: trie_rm returns TRUE and decrements the count for a key that has a node but no value (a branching point such "
-        "as 'ab' with 'ab1','ab2' present, a key carrying only a notifier, a key removed before whose node stays for its "
-        "children): count underflows to 2^64-1", "fixes/D17-D18-trie-removed-node-findable.patch"),
-    _pf("C17", "KF-C17-trie-global", "K_C17_trie_global", "corpus/C17/trie-d80-global-notifier-needs-recursive.ops",
-        "D80: trie: a global notifier (NULL key) registered without QB_MAP_NOTIFY_RECURSIVE is never called for "
-        "INSERTED/REPLACED/DELETED (only for FREE), unlike hashtable and skiplist", "fixes/D80-trie-global-notifier-without-recursive.patch"),
-    _pf("C17", "KF-C17-trie-order", "K_C17_trie_order", "corpus/C17/trie-d81-signed-char-order.ops",
-        "D81: trie iterates in ascending order of SIGNED char (child index 127 - (signed char)c): keys with bytes >= 0x80 "
-        "come before ASCII keys, not in strcmp order as in the skiplist"),
-    _pf("C17", "KF-C17-trie-leak", "K_C17_trie_leak", "corpus/C17/trie-d82-destroy-leaks-nodes.ops",
-        "D82: trie_destroy only walks the nodes that hold a value: the root node, valueless nodes that carry notifiers or "
-        "were created for a terminating NUL, and all notifier records are never freed (LeakSanitizer at exit)",
-        None),
     _pf("C18", "KF-C18-sl-takeover", "K_C18_sl", "corpus/C18/sl-d16-shared-forward-array.ops",
         "D16: skiplist_rm frees a forward array that a removed-but-referenced node still shares (takeover-and-repoint "
         "passes the array to the predecessor, the next removal next to it frees it): heap-use-after-free in "
-        "skiplist_node_next on the next qb_map_iter_next, e.g. removing the first two entries while an iterator is on the first",
-        "fixes/D16-skiplist-removed-node-resume-by-key.patch"),
-    _pf("C18", "KF-C18-sl-iterfree", "K_C18_sl_iterfree", "corpus/C18/sl-d19-iter-free.ops",
-        "D19: skiplist_iter_free does not release the node the iterator is parked on: an entry removed under (or after) an "
-        "abandoned iterator never gets DELETED/FREE and is leaked", "fixes/D19-skiplist-iter-free-deref.patch"),
-    _pf("C18", "KF-C18-sl-destroy", "K_C18_sl_destroy", "corpus/C18/sl-d23-destroy-spurious-deleted.ops",
-        "D23: skiplist_destroy delivers DELETED(NULL) twice and FREE(NULL) once to every global notifier (see KF-C17-sl-destroy)",
-        "fixes/D23-skiplist-destroy-header-no-notify.patch"),
-    _pf("C18", "KF-C18-trie-zombie", "K_C18_trie", "corpus/C18/trie-d18-removed-node-findable.ops",
-        "D18: trie: an entry removed while an iterator is parked on it stays findable (get returns the removed value, a "
-        "second rm succeeds, count goes wrong) and the second rm frees the node under the iterator: heap-use-after-free in "
-        "trie_iter_next", "fixes/D17-D18-trie-removed-node-findable.patch"),
+        "skiplist_node_next on the next qb_map_iter_next, e.g. removing the first two entries while an iterator is on the first"),
     _pf("C18", "KF-C18-trie-split", "K_C18_trie_split", "corpus/C18/trie-d83-split-under-iterator.ops",
         "D83: trie: an insertion that splits the node an iterator is parked on moves the entry together with the iterator's "
         "reference to a new child node; the iterator later releases the wrong node: the NEW entry is deleted when the "
         "iterator moves on or is freed (DELETED notified, count wrong) and the old entry keeps a reference for ever"),
-    _pf("C18", "KF-C18-trie-rm", "K_C18_trie_rm", "corpus/C18/trie-d17-rm-absent-key.ops",
-        "D17: trie_rm returns TRUE and decrements the count for a key that has a node but no value (see KF-C17-trie-rm)",
-        "fixes/D17-D18-trie-removed-node-findable.patch"),
-    _pf("C18", "KF-C18-trie-global", "K_C18_trie_global", "corpus/C18/trie-d80-global-notifier-needs-recursive.ops",
-        "D80: trie: global notifier without QB_MAP_NOTIFY_RECURSIVE is never called (see KF-C17-trie-global)",
-        "fixes/D80-trie-global-notifier-without-recursive.patch"),
-    _pf("C18", "KF-C18-trie-order", "K_C18_trie_order", "corpus/C18/trie-d81-signed-char-order.ops",
-        "D81: trie iterates in signed-char order (see KF-C17-trie-order)"),
-    _pf("C18", "KF-C18-trie-leak", "K_C18_trie_leak", "corpus/C18/trie-d82-destroy-leaks-nodes.ops",
-        "D82: trie_destroy never frees the root node, valueless nodes and notifier records (see KF-C17-trie-leak)",
-        None),
 ]
 
 
